@@ -327,10 +327,88 @@ class RecipeReplay:
                                                                   "target": self.lab.target_kind(st["n"], st["r"]), "partial": self.partial(st, snaps[i])},
                                     f"remove step {i + 1}: {got.get(s, 0.0)!r} of {s} recorded as discarded, {e!r} left the wells", ev)
                         break
+        self.mon_step_instructions(ev, ctx, key, snaps)
         self.mon_queries(ev, ctx, key, snaps)
 
     def fragile(self, ev):
         return any(c in ("boundary", "degenerate") for c in ev.get("clss", []))
+
+    # ---- C19: the instruction text of baked steps states the true amounts ----------------------------------------
+    def mon_step_instructions(self, ev, ctx, key, snaps):
+        import re
+        from model import VOLPER
+        recipe, inst, lab = ctx["recipe"], self.inst, self.lab
+        for i, (st, step) in enumerate(zip(ev["prog"], recipe.steps)):
+            text = " ".join((step.instructions or "").split())
+            call = st["call"]
+            k19 = {"op": "recipe_step", "step": call}
+            if call in ("dilute", "fill_to"):
+                name = st["n"]
+                before, after = snaps[i][name], snaps[i + 1][name]
+                added = [(a["c"][st["solvent"]] - b["c"][st["solvent"]]) * VOLPER[st["solvent"]] for a, b in zip(after["w"], before["w"])]
+                if call == "fill_to" and self.shape[name] != (0, 0):
+                    if st["r"] not in ("plate", "all"):
+                        continue        # slice fills: recorded finding F02
+                    self.ran("C19")
+                    m = re.fullmatch(r"Fill '(.+)' with '(.+)' up to (.+?) by adding: (.*)\.", text)
+                    if not m:
+                        self.report("C19", "step_instruction_unreadable", k19, f"step {i + 1}: {text!r}", ev)
+                        continue
+                    nr, nc = self.shape[name]
+                    rows = [chr(ord("A") + r) for r in range(nr)]
+                    stated = {}
+                    bad = False
+                    for part in re.findall(r"([-0-9.e]+ \w+) to \[([^\]]*)\]", m.group(4)):
+                        q = lab.stated(part[0], ("L",))
+                        if q is None:
+                            bad = True
+                            break
+                        for addr in part[1].split(", "):
+                            ends = addr.split(":")
+                            def rc(a):
+                                return rows.index(a[0]), int(a[1:]) - 1
+                            (r0, c0), (r1, c1) = rc(ends[0]), rc(ends[-1])
+                            for r in range(r0, r1 + 1):
+                                for c in range(c0, c1 + 1):
+                                    stated[r * nc + c] = q
+                    if bad:
+                        self.report("C19", "step_instruction_unreadable", k19, f"step {i + 1}: {text!r}", ev)
+                        continue
+                    for w, x in enumerate(added):
+                        q = stated.get(w)
+                        if q is None:
+                            if float(x * inst.base_scale("L")) > 1e-3 * 1e-6 * 0 + 1e-9 and not self.rounds_to_zero(x):
+                                self.report("C19", "step_amount_misstated", dict(k19, target="P"), f"step {i + 1}: {text!r} says nothing about well {w + 1}, which received {float(x * inst.base_scale('L'))!r} L", ev)
+                                break
+                        elif not lab.fact_ok(q, x, "L"):
+                            self.report("C19", "step_amount_misstated", dict(k19, target="P"), f"step {i + 1}: {text!r}; well {w + 1} actually received {float(x * inst.base_scale('L'))!r} L", ev)
+                            break
+                    continue
+                self.ran("C19")
+                if call == "dilute":
+                    m = re.fullmatch(r"Dilute '(.+)' in '(.+)' to (.+) by adding (.+?) of '(.+)'\.", text)
+                    qtxt = m.group(4) if m else None
+                else:
+                    m = re.fullmatch(r"Fill '(.+)' with '(.+)' up to (.+) by adding (.+?)\.", text)
+                    qtxt = m.group(4) if m else None
+                q = lab.stated(qtxt, ("L",)) if qtxt else None
+                if q is None:
+                    self.report("C19", "step_instruction_unreadable", k19, f"step {i + 1}: {text!r}", ev)
+                elif not lab.fact_ok(q, added[0], "L"):
+                    self.report("C19", "step_amount_misstated", dict(k19, target="C"),
+                                f"step {i + 1}: {text!r}; actually added {float(added[0] * inst.base_scale('L'))!r} L", ev)
+            elif call == "transfer":
+                self.ran("C19")
+                m = re.fullmatch(r"Transfer (.+?) from '(.+)' to '(.+)'\.", text)
+                q = lab.stated(m.group(1)) if m else None
+                if q is None:
+                    self.report("C19", "step_instruction_unreadable", k19, f"step {i + 1}: {text!r}", ev)
+                elif q[1] != st["u"] or not lab.fact_ok((q[0], q[1], abs(q[0]) * 1e-9), rat(st["q"]), st["u"]):
+                    self.report("C19", "step_amount_misstated", k19, f"step {i + 1}: {text!r}; requested {float(rat(st['q']) * inst.base_scale(st['u']))!r} {st['u']}", ev)
+
+    def rounds_to_zero(self, x):
+        """an addition below half a unit of the displayed precision of the plate fill text is omitted from it"""
+        return float(x * self.inst.base_scale("L")) < 0.5e-3 * 1e-6 * 1000
 
     def kind_of(self, name):
         return "C" if self.shape[name] == (0, 0) else "P"
